@@ -127,6 +127,8 @@ func c01(c *an.Check) {
 
 	sigVerifyWithPublicGates(c)
 	sigValidateGates(c)
+	// the claimed sender is decoded exactly (no trailing or missing bytes): shared with C10
+	peerIDDecodeObligations(c)
 }
 
 // sigVerifyWithPublicGates: pubKey.Verify only behind the four rejections (shared by C01 and C02).
